@@ -65,6 +65,7 @@ theorem mapM_roundtrip {α : Type} {f : α → PyVal} {g : PyVal → D α} : ∀
 @[simp] theorem asOptStr_of (s : Option Str) : asOptStr (ofOptStr s) = .ok s := by cases s <;> rfl
 @[simp] theorem asOptInt_of (s : Option Int) : asOptInt (ofOptInt s) = .ok s := by cases s <;> rfl
 @[simp] theorem asOptBool_of (s : Option Bool) : asOptBool (ofOptBool s) = .ok s := by cases s <;> rfl
+@[simp] theorem asOptUuid_uuid (g : Str) : asOptUuid (.uuid g) = .ok (some g) := rfl
 @[simp] theorem asOptUuid_of (s : Option Str) : asOptUuid (ofOptUuid s) = .ok s := by cases s <;> rfl
 
 @[simp] theorem lookupStrand_name (s : Strand) : lookupStrand (.str (strandName s)) = .ok s := by
@@ -204,7 +205,7 @@ theorem tx_roundtrip (o : TxObj) (h : TxWF o) : txFromDict md5 (txToDict o) = .o
     cases cds with
     | none =>
       simp only [asInts_ofInts, bind_ok, lookupStrand_name, optInts, optFrames, truthy, Bool.false_eq_true,
-        if_false, pure_ok, asOptUuid, asOptUuid_of, hr, asOptBool_of, asOptStr_of, hb, txCdsOf, hq,
+        if_false, pure_ok, asOptUuid_uuid, asOptUuid_of, hr, asOptBool_of, asOptStr_of, hb, txCdsOf, hq,
         Option.getD_some]
     | some c =>
       obtain ⟨s, e, f⟩ := c
@@ -215,7 +216,276 @@ theorem tx_roundtrip (o : TxObj) (h : TxWF o) : txFromDict md5 (txToDict o) = .o
         intro hf; subst hf; cases s with | nil => exact h1 rfl | cons _ _ => simp at h3
       simp only [Option.map_some] at hc
       simp only [asInts_ofInts, bind_ok, lookupStrand_name, optInts_of s h1, optInts_of e he, optFrames_of f hf,
-        pure_ok, asOptUuid, asOptUuid_of, hr, asOptBool_of, asOptStr_of, hb, hc, hq, Option.getD_some]
+        pure_ok, asOptUuid_uuid, asOptUuid_of, hr, asOptBool_of, asOptStr_of, hb, hc, hq, Option.getD_some]
+
+/-! ### CDSInterval, FeatureInterval, VariantInterval -/
+
+structure CdsWF (o : CdsObj) : Prop where
+  quals : QualsWF o.args.quals
+  guid : o.guid = cdsGuid md5 o.args
+
+theorem cds_roundtrip (o : CdsObj) (h : CdsWF md5 o) : cdsFromDict md5 (cdsToDict o) = .ok o := by
+  obtain ⟨a, sn, sg, g⟩ := o
+  obtain ⟨st, en, sd, fr, prod, pid, q⟩ := a
+  have hq := quals_roundtrip h.quals
+  have hg := h.guid
+  simp only at hq hg
+  cases hr : asRawQuals (qualsExportVal q) with
+  | error e => rw [hr] at hq; cases hq
+  | ok rq =>
+    rw [hr] at hq
+    simp only [map_ok, Except.ok.injEq] at hq
+    simp only [cdsFromDict, cdsToDict, getK_mkDict]
+    simp only [lookupK, reduceCtorEq, ↓reduceIte, orKeyError, bind_ok]
+    simp only [asInts_ofInts, bind_ok, lookupStrand_name, asList, frames_roundtrip, pure_ok, asOptUuid_of, hr,
+      asOptStr_of, hq, hg]
+
+structure FeatWF (o : FeatObj) : Prop where
+  quals : QualsWF o.args.quals
+  types : o.args.featureTypes.Pairwise (fun a b => strLt a b = true)
+
+theorem asStrs_strs (l : List Str) : asStrs (.list (l.map .str)) = .ok l := by
+  simp only [asStrs]
+  exact mapM_roundtrip (f := PyVal.str) (g := asStr) (fun _ _ => rfl)
+
+theorem importTypes_export {l : List Str} (h : l.Pairwise (fun a b => strLt a b = true)) :
+    importTypes (if l.isEmpty then .none else .list ((sortStrs l).map .str)) = .ok l := by
+  cases l with
+  | nil => rfl
+  | cons x xs =>
+    have ht : truthy (.list ((sortStrs (x :: xs)).map PyVal.str)) = true := by
+      rw [sortStrs_of_strict h]; rfl
+    simp only [List.isEmpty_cons, Bool.false_eq_true, if_false, importTypes, ht, if_true, asStrs_strs, map_ok]
+    rw [sortStrs_of_strict h, sortStrs_of_strict h, dedupSorted_of_strict h]
+
+theorem feat_roundtrip (o : FeatObj) (h : FeatWF o) : featFromDict md5 (featToDict o) = .ok o := by
+  obtain ⟨a, sg, g, fg⟩ := o
+  obtain ⟨st, en, sd, q, sn, types, fname, fid, prim⟩ := a
+  have hq := quals_roundtrip h.quals
+  have ht := importTypes_export h.types
+  simp only at hq ht
+  cases hr : asRawQuals (qualsExportVal q) with
+  | error e => rw [hr] at hq; cases hq
+  | ok rq =>
+    rw [hr] at hq
+    simp only [map_ok, Except.ok.injEq] at hq
+    simp only [featFromDict, featToDict, getK_mkDict]
+    simp only [lookupK, reduceCtorEq, ↓reduceIte, orKeyError, bind_ok]
+    simp only [asInts_ofInts, bind_ok, lookupStrand_name, pure_ok, asOptUuid_uuid, asOptUuid_of, hr, asOptBool_of,
+      asOptStr_of, hq, ht, Option.getD_some]
+
+structure VarWF (o : VarObj) : Prop where
+  quals : QualsWF o.args.quals
+  nonempty : o.args.start ≠ o.args.stop
+
+theorem var_roundtrip (o : VarObj) (h : VarWF o) : varFromDict md5 (varToDict o) = .ok o := by
+  obtain ⟨a, vid, g⟩ := o
+  obtain ⟨s, e, q, sq, vt, pb, vname, vguid⟩ := a
+  have hq := quals_roundtrip h.quals
+  have hne : (s == e) = false := by simpa using h.nonempty
+  simp only at hq
+  cases hr : asRawQuals (qualsExportVal q) with
+  | error e => rw [hr] at hq; cases hq
+  | ok rq =>
+    rw [hr] at hq
+    simp only [map_ok, Except.ok.injEq] at hq
+    simp only [varFromDict, varToDict, getK_mkDict]
+    simp only [lookupK, reduceCtorEq, ↓reduceIte, orKeyError, bind_ok]
+    simp only [asInt, asStr, bind_ok, pure_ok, asOptUuid_uuid, asOptUuid_of, hr, asOptInt_of, asOptStr_of, hq,
+      Option.getD_some, hne, Bool.false_eq_true, if_false]
+
+/-! ### collections -/
+
+structure GeneWF (o : GeneObj) : Prop where
+  quals : QualsWF o.quals
+  biotype : BiotypeWF o.geneType
+  children : ∀ t ∈ o.transcripts, TxWF t
+  nonempty : o.transcripts ≠ []
+
+theorem gene_roundtrip (o : GeneObj) (h : GeneWF o) : geneFromDict md5 (geneToDict o) = .ok o := by
+  obtain ⟨txs, gid, sym, ty, lt, q, sn, sg, g⟩ := o
+  have hq := quals_roundtrip h.quals
+  have hb := optBiotype_roundtrip h.biotype
+  have hc : (txs.map txToDict).mapM (txFromDict md5) = .ok txs :=
+    mapM_roundtrip fun t ht => tx_roundtrip md5 t (h.children t ht)
+  have hne : txs.isEmpty = false := by
+    cases txs with | nil => exact absurd rfl h.nonempty | cons _ _ => rfl
+  simp only at hq hb
+  cases hr : asRawQuals (qualsExportVal q) with
+  | error e => rw [hr] at hq; cases hq
+  | ok rq =>
+    rw [hr] at hq
+    simp only [map_ok, Except.ok.injEq] at hq
+    simp only [geneFromDict, geneToDict, getK_mkDict]
+    simp only [lookupK, reduceCtorEq, ↓reduceIte, orKeyError, bind_ok]
+    simp only [asList, bind_ok, hc, pure_ok, asOptUuid_uuid, asOptUuid_of, hr, asOptStr_of, hb, hq, hne,
+      Bool.false_eq_true, if_false, guidOr]
+
+structure FcWF (o : FcObj) : Prop where
+  quals : QualsWF o.quals
+  children : ∀ t ∈ o.features, FeatWF t
+  nonempty : o.features ≠ []
+
+theorem fc_roundtrip (o : FcObj) (h : FcWF o) : fcFromDict md5 (fcToDict o) = .ok o := by
+  obtain ⟨fs, name, id, ct, lt, q, sn, sg, g⟩ := o
+  have hq := quals_roundtrip h.quals
+  have hc : (fs.map featToDict).mapM (featFromDict md5) = .ok fs :=
+    mapM_roundtrip fun t ht => feat_roundtrip md5 t (h.children t ht)
+  have hne : fs.isEmpty = false := by
+    cases fs with | nil => exact absurd rfl h.nonempty | cons _ _ => rfl
+  simp only at hq
+  cases hr : asRawQuals (qualsExportVal q) with
+  | error e => rw [hr] at hq; cases hq
+  | ok rq =>
+    rw [hr] at hq
+    simp only [map_ok, Except.ok.injEq] at hq
+    simp only [fcFromDict, fcToDict, getK_mkDict]
+    simp only [lookupK, reduceCtorEq, ↓reduceIte, orKeyError, bind_ok]
+    simp only [asList, bind_ok, hc, pure_ok, asOptUuid_uuid, asOptUuid_of, hr, asOptStr_of, hq, hne,
+      Bool.false_eq_true, if_false, guidOr]
+
+structure VcWF (o : VcObj) : Prop where
+  quals : QualsWF o.quals
+  children : ∀ t ∈ o.variants, VarWF t
+  nonempty : o.variants ≠ []
+  sorted : o.variants.Pairwise fun a b => a.args.start ≤ b.args.start
+
+theorem vc_roundtrip (o : VcObj) (h : VcWF o) : vcFromDict md5 (vcToDict o) = .ok o := by
+  obtain ⟨vs, name, id, q, sn, sg, g⟩ := o
+  have hq := quals_roundtrip h.quals
+  have hc : (vs.map varToDict).mapM (varFromDict md5) = .ok vs :=
+    mapM_roundtrip fun t ht => var_roundtrip md5 t (h.children t ht)
+  have hne : vs.isEmpty = false := by
+    cases vs with | nil => exact absurd rfl h.nonempty | cons _ _ => rfl
+  have hs : sortVars vs = vs :=
+    List.mergeSort_of_pairwise (h.sorted.imp fun hab => by simpa using hab)
+  simp only at hq
+  cases hr : asRawQuals (qualsExportVal q) with
+  | error e => rw [hr] at hq; cases hq
+  | ok rq =>
+    rw [hr] at hq
+    simp only [map_ok, Except.ok.injEq] at hq
+    simp only [vcFromDict, vcToDict, getK_mkDict]
+    simp only [lookupK, reduceCtorEq, ↓reduceIte, orKeyError, bind_ok]
+    simp only [asList, bind_ok, hc, pure_ok, asOptUuid_uuid, asOptUuid_of, hr, asOptStr_of, hq, hne,
+      Bool.false_eq_true, if_false, guidOr, hs]
+
+/-! ### the parent dictionary -/
+
+def ParentWF : ParentDesc → Prop
+  | .none => True
+  | .bare id chromosome => chromosome = true ∨ ∃ n, id = some n ∧ n ≠ []
+  | .chrom sq _ _ => sq ≠ []
+  | .chunk sq _ _ _ _ _ => sq ≠ []
+
+theorem truthy_str_ne {s : Str} (h : s ≠ []) : truthy (.str s) = true := by
+  cases s with | nil => exact absurd rfl h | cons _ _ => rfl
+
+theorem truthy_strandName (s : Strand) : truthy (.str (strandName s)) = true := by cases s <;> rfl
+
+theorem parent_roundtrip (p : ParentDesc) (b : Int × Int) (h : ParentWF p) :
+    parentFromDict (parentToDict p b) = .ok p := by
+  cases p with
+  | none => rfl
+  | chunk sq al name s e st =>
+    have hs : truthy (.str sq) = true := truthy_str_ne h
+    have hu : upperAscii "SEQUENCE_CHUNK".toList = "SEQUENCE_CHUNK".toList := by decide
+    simp only [parentToDict, parentFromDict, getOpt_mkDict]
+    simp only [lookupK, reduceCtorEq, ↓reduceIte, Option.getD_some, hs, if_true, asStr, bind_ok, pure_ok,
+      strandOrPlus, typeUpper,
+      truthy_strandName, lookupStrand_name, asInt, map_ok, show truthy (.str "SEQUENCE_CHUNK".toList) = true from rfl,
+      hu, beq_self_eq_true]
+    rfl
+  | chrom sq al id =>
+    have hs : truthy (.str sq) = true := truthy_str_ne h
+    have hu : (some (upperAscii "CHROMOSOME".toList) == some "SEQUENCE_CHUNK".toList) = false := by decide
+    simp only [parentToDict, parentFromDict, getOpt_mkDict]
+    simp only [lookupK, reduceCtorEq, ↓reduceIte, Option.getD_some, hs, if_true, asStr, bind_ok, pure_ok, typeUpper,
+      asOptStr_of, map_ok, show truthy (.str "CHROMOSOME".toList) = true from rfl, hu, Bool.false_eq_true, if_false]
+    rfl
+  | bare id c =>
+    cases c with
+    | true =>
+      have hu : (some (upperAscii "CHROMOSOME".toList) == some "CHROMOSOME".toList) = true := by decide
+      simp only [parentToDict, parentFromDict, getOpt_mkDict]
+      simp only [lookupK, reduceCtorEq, ↓reduceIte, Option.getD_some, typeUpper,
+        show truthy (.str "CHROMOSOME".toList) = true from rfl, show truthy .none = false from rfl,
+        Bool.false_eq_true, if_false, if_true,
+        asStr, bind_ok, pure_ok, asOptStr_of, map_ok, hu, Bool.true_or]
+      rfl
+    | false =>
+      rcases h with h | ⟨n, rfl, hn⟩
+      · cases h
+      · have hs : truthy (.str n) = true := truthy_str_ne hn
+        simp only [parentToDict, parentFromDict, getOpt_mkDict]
+        simp only [lookupK, reduceCtorEq, ↓reduceIte, Option.getD_some, typeUpper,
+          show truthy .none = false from rfl, Bool.false_eq_true, if_false,
+          ofOptStr, hs, Bool.false_or, if_true, bind_ok, pure_ok, asOptStr]
+        rfl
+
+/-! ### AnnotationCollection -/
+
+structure AcWF (o : AcObj) : Prop where
+  quals : QualsWF o.quals
+  genes : ∀ g ∈ o.genes, GeneWF g
+  fcs : ∀ c ∈ o.fcs, FcWF c
+  vcs : ∀ c ∈ o.vcs, VcWF c
+  parent : ParentWF o.parent
+  guid : o.guid = acGuidOf md5 o.bounds o.parent.chunkStart o.name o.sequenceName o.quals o.completelyWithin
+            (o.genes.map (·.guid) ++ o.fcs.map (·.guid) ++ o.vcs.map (·.guid))
+
+theorem optChildren_roundtrip {α : Type} {f : α → PyVal} {g : PyVal → D α} {l : List α}
+    (h : ∀ x ∈ l, g (f x) = .ok x) : optChildren g (.list (l.map f)) = .ok l := by
+  cases l with
+  | nil => rfl
+  | cons x xs =>
+    have := mapM_roundtrip (f := f) (g := g) (l := x :: xs) h
+    simp only [optChildren, truthy, List.map_cons, List.isEmpty_cons, Bool.not_false, if_true, asList, bind_ok]
+    simpa using this
+
+theorem ac_roundtrip (o : AcObj) (h : AcWF md5 o) (ep : Bool) (d : PyVal) (hd : acToDict o ep = .ok d) :
+    acFromDict md5 d (if ep then .none else o.parent) = .ok o := by
+  obtain ⟨genes, fcs, vcs, name, id, q, sn, sg, sp, bounds, cw, parent, g⟩ := o
+  have hq := quals_roundtrip h.quals
+  have hg : optChildren (geneFromDict md5) (.list (genes.map geneToDict)) = .ok genes :=
+    optChildren_roundtrip fun x hx => gene_roundtrip md5 x (h.genes x hx)
+  have hf : optChildren (fcFromDict md5) (.list (fcs.map fcToDict)) = .ok fcs :=
+    optChildren_roundtrip fun x hx => fc_roundtrip md5 x (h.fcs x hx)
+  have hv : optChildren (vcFromDict md5) (.list (vcs.map vcToDict)) = .ok vcs :=
+    optChildren_roundtrip fun x hx => vc_roundtrip md5 x (h.vcs x hx)
+  have hguid := h.guid
+  simp only at hq hguid
+  cases bounds with
+  | none => simp [acToDict] at hd
+  | some b =>
+    simp only [acToDict, Except.ok.injEq] at hd
+    subst hd
+    have hp : resolveParent (mkDict [
+        (.genes, .list (genes.map geneToDict)), (.feature_collections, .list (fcs.map fcToDict)),
+        (.variant_collections, .list (vcs.map vcToDict)), (.name, ofOptStr name), (.id, ofOptStr id),
+        (.qualifiers, qualsExportVal q), (.sequence_name, ofOptStr sn),
+        (.sequence_guid, ofOptUuid sg), (.sequence_path, ofOptStr sp),
+        (.start, .int b.1), (.end, .int b.2), (.completely_within, ofOptBool cw),
+        (.parent_or_seq_chunk_parent, if ep then parentToDict parent b else .none)])
+        (if ep then .none else parent) = .ok parent := by
+      simp only [resolveParent, getK_mkDict]
+      simp only [lookupK, reduceCtorEq, ↓reduceIte, orKeyError]
+      cases ep with
+      | true => simpa using parent_roundtrip parent b h.parent
+      | false =>
+        by_cases hpn : parent = .none
+        · subst hpn; rfl
+        · simp [hpn]
+    cases hr : asRawQuals (qualsExportVal q) with
+    | error e => rw [hr] at hq; cases hq
+    | ok rq =>
+      rw [hr] at hq
+      simp only [map_ok, Except.ok.injEq] at hq
+      simp only [acFromDict, hp, bind_ok]
+      simp only [getK_mkDict]
+      simp only [lookupK, reduceCtorEq, ↓reduceIte, orKeyError, bind_ok]
+      simp only [hg, hf, hv, bind_ok, pure_ok, asOptUuid_of, hr, asOptStr_of, asOptBool_of, hq, asOptInt,
+        resolveBounds, hguid]
 
 end
 end BioCantor.Proofs.Dig
